@@ -219,6 +219,14 @@ class ilu_solve< backend::builtin<value_type, col_type, ptr_type> > {
 #endif
         }
 
+        static int team_size() {
+#ifdef _OPENMP
+            return omp_get_num_threads();
+#else
+            return 1;
+#endif
+        }
+
         // copies of the input matrices for the fallback (serial)
         // implementation:
         std::shared_ptr<matrix>          L;
@@ -335,27 +343,35 @@ class ilu_solve< backend::builtin<value_type, col_type, ptr_type> > {
 
 #pragma omp parallel
                 {
-                    int tid = thread_id();
-                    tasks[tid].reserve(nlev);
+                    // The team executing this region is not necessarily made of
+                    // nthreads threads (dynamic adjustment, thread limit, nested
+                    // region, omp_set_num_threads() after construction): each
+                    // thread of the actual team serves the thread-specific
+                    // storage tid, tid + team, tid + 2 * team, ...
+                    const int team = team_size();
 
-                    for(ptrdiff_t lev = 0; lev < nlev; ++lev) {
-                        // split each level into tasks.
-                        ptrdiff_t lev_size = start[lev+1] - start[lev];
-                        ptrdiff_t chunk_size = (lev_size + nthreads - 1) / nthreads;
+                    for(int tid = thread_id(); tid < nthreads; tid += team) {
+                        tasks[tid].reserve(nlev);
 
-                        ptrdiff_t beg = std::min(tid * chunk_size, lev_size);
-                        ptrdiff_t end = std::min(beg + chunk_size, lev_size);
+                        for(ptrdiff_t lev = 0; lev < nlev; ++lev) {
+                            // split each level into tasks.
+                            ptrdiff_t lev_size = start[lev+1] - start[lev];
+                            ptrdiff_t chunk_size = (lev_size + nthreads - 1) / nthreads;
 
-                        beg += start[lev];
-                        end += start[lev];
+                            ptrdiff_t beg = std::min(tid * chunk_size, lev_size);
+                            ptrdiff_t end = std::min(beg + chunk_size, lev_size);
 
-                        tasks[tid].push_back(task(beg, end));
+                            beg += start[lev];
+                            end += start[lev];
 
-                        // count rows and nonzeros in the current task
-                        thread_rows[tid] += end - beg;
-                        for(ptrdiff_t i = beg; i < end; ++i) {
-                            ptrdiff_t j = order[i];
-                            thread_cols[tid] += A.ptr[j+1] - A.ptr[j];
+                            tasks[tid].push_back(task(beg, end));
+
+                            // count rows and nonzeros in the current task
+                            thread_rows[tid] += end - beg;
+                            for(ptrdiff_t i = beg; i < end; ++i) {
+                                ptrdiff_t j = order[i];
+                                thread_cols[tid] += A.ptr[j+1] - A.ptr[j];
+                            }
                         }
                     }
                 }
@@ -365,60 +381,70 @@ class ilu_solve< backend::builtin<value_type, col_type, ptr_type> > {
 
 #pragma omp parallel
                 {
-                    int tid = thread_id();
+                    const int team = team_size();
 
-                    col[tid].reserve(thread_cols[tid]);
-                    val[tid].reserve(thread_cols[tid]);
-                    ord[tid].reserve(thread_rows[tid]);
-                    ptr[tid].reserve(thread_rows[tid] + 1);
-                    ptr[tid].push_back(0);
+                    for(int tid = thread_id(); tid < nthreads; tid += team) {
+                        col[tid].reserve(thread_cols[tid]);
+                        val[tid].reserve(thread_cols[tid]);
+                        ord[tid].reserve(thread_rows[tid]);
+                        ptr[tid].reserve(thread_rows[tid] + 1);
+                        ptr[tid].push_back(0);
 
-                    if (!lower) D[tid].reserve(thread_rows[tid]);
+                        if (!lower) D[tid].reserve(thread_rows[tid]);
 
-                    for(task &t : tasks[tid]) {
-                        ptrdiff_t loc_beg = ptr[tid].size() - 1;
-                        ptrdiff_t loc_end = loc_beg;
+                        for(task &t : tasks[tid]) {
+                            ptrdiff_t loc_beg = ptr[tid].size() - 1;
+                            ptrdiff_t loc_end = loc_beg;
 
-                        for(ptrdiff_t r = t.beg; r < t.end; ++r, ++loc_end) {
-                            ptrdiff_t i = order[r];
-                            if (!lower) D[tid].push_back(_D[i]);
+                            for(ptrdiff_t r = t.beg; r < t.end; ++r, ++loc_end) {
+                                ptrdiff_t i = order[r];
+                                if (!lower) D[tid].push_back(_D[i]);
 
-                            ord[tid].push_back(i);
+                                ord[tid].push_back(i);
 
-                            for(auto j = A.ptr[i]; j < A.ptr[i+1]; ++j) {
-                                col[tid].push_back(A.col[j]);
-                                val[tid].push_back(A.val[j]);
+                                for(auto j = A.ptr[i]; j < A.ptr[i+1]; ++j) {
+                                    col[tid].push_back(A.col[j]);
+                                    val[tid].push_back(A.val[j]);
+                                }
+
+                                ptr[tid].push_back(col[tid].size());
                             }
 
-                            ptr[tid].push_back(col[tid].size());
+                            t.beg = loc_beg;
+                            t.end = loc_end;
                         }
-
-                        t.beg = loc_beg;
-                        t.end = loc_end;
                     }
                 }
             }
 
             template <class Vector>
             void solve(Vector &x) const {
+                const ptrdiff_t nlev = tasks.empty() ? 0 : tasks[0].size();
+
 #pragma omp parallel
                 {
-                    int tid = thread_id();
+                    // see the note in the constructor: threads of the actual
+                    // team share the work prepared for nthreads threads.
+                    const int team = team_size();
 
-                    for(const task &t : tasks[tid]) {
-                        for(ptrdiff_t r = t.beg; r < t.end; ++r) {
-                            ptrdiff_t i   = ord[tid][r];
-                            ptrdiff_t beg = ptr[tid][r];
-                            ptrdiff_t end = ptr[tid][r+1];
+                    for(ptrdiff_t lev = 0; lev < nlev; ++lev) {
+                        for(int tid = thread_id(); tid < nthreads; tid += team) {
+                            const task &t = tasks[tid][lev];
 
-                            rhs_type X = math::zero<rhs_type>();
-                            for(ptrdiff_t j = beg; j < end; ++j)
-                                X += val[tid][j] * x[col[tid][j]];
+                            for(ptrdiff_t r = t.beg; r < t.end; ++r) {
+                                ptrdiff_t i   = ord[tid][r];
+                                ptrdiff_t beg = ptr[tid][r];
+                                ptrdiff_t end = ptr[tid][r+1];
 
-                            if (lower)
-                                x[i] -= X;
-                            else
-                                x[i] = D[tid][r] * (x[i] - X);
+                                rhs_type X = math::zero<rhs_type>();
+                                for(ptrdiff_t j = beg; j < end; ++j)
+                                    X += val[tid][j] * x[col[tid][j]];
+
+                                if (lower)
+                                    x[i] -= X;
+                                else
+                                    x[i] = D[tid][r] * (x[i] - X);
+                            }
                         }
 
                         // each task corresponds to a level, so we need
